@@ -33,6 +33,11 @@ def shapes(l):
     yield 'cls2', ('star', ('ref', 'K')), [('K', ('class', None, [('k', False, l), ('j', False, ('opt', B))]))]
     yield 'skipexpr', ('seq', l, ('skip', B), l), []
     yield 'longest', ('longest', ('seq', l, B), l), []
+    # literals only, nested beyond the depth at which the generator moves the inner part into a helper function
+    e = ('seq', l, ('opt', B))
+    for _ in range(20):
+        e = ('seq', e)
+    yield 'deep', ('right', ('str', ''), e), []
 
 
 IGNORES = [
@@ -114,7 +119,7 @@ def jobs(tier):
 
 def run(tier, seed):
     chk = Check('C04', tier, seed)
-    chk.rule = ('4 literal kinds (+ byte literals in bytes mode) x 18 enclosing start-rule shapes x {plain rule, class, class whose first member is a pass member} start x 9 ignore '
+    chk.rule = ('4 literal kinds (+ byte literals in bytes mode) x 19 enclosing start-rule shapes (one nests the literals 20 blocks deep) x {plain rule, class, class whose first member is a pass member} start x 9 ignore '
                 'declarations (one/two patterns, named/anonymous, ignore/ignored, before/after the rules, pattern matching line breaks) '
                 'x entry points {parse, every parameterless rule} x all inputs over {a,b,space,#|,} up to length 5/6; oracle: model '
                 'with the skip rule (after every successful literal, before the start rule body only) incl. spans, plus the metamorphic '
